@@ -255,20 +255,66 @@ fn positions(seed: &Seed, thorough: bool) -> Vec<usize> {
     (0..n).filter(|&p| thorough || !store_interior(seed, p) || p % 16 == 0).collect()
 }
 
-pub fn well_formed_extra_unit(family: &str) -> Option<Vec<u8>> {
-    Some(match family {
-        "png" => assets::png_chunk(b"tEXt", b"Comment\0evil"),
-        "jpeg" => vec![0xFF, 0xFE, 0x00, 0x06, b'e', b'v', b'i', b'l'],
-        "gif" => vec![0x21, 0xFE, 0x04, b'e', b'v', b'i', b'l', 0x00],
-        "bmff" | "jxl" => assets::bx(b"abcd", b"evil"),
-        "riff" => {
-            let mut v = b"evil".to_vec();
-            v.extend_from_slice(&4u32.to_le_bytes());
-            v.extend_from_slice(b"evil");
-            v
+/// Well-formed new units of several sizes for a container family: (name, bytes). They are inserted at EVERY unit
+/// boundary (so also directly in front of and directly behind the manifest container) and appended.
+pub fn extra_units(family: &str) -> Vec<(String, Vec<u8>)> {
+    let fill = |n: usize| -> Vec<u8> { (0..n).map(|i| b'a' + (i % 26) as u8).collect() };
+    let mut v = vec![];
+    match family {
+        "jpeg" => {
+            let seg = |m: u8, d: &[u8]| -> Vec<u8> {
+                let mut s = vec![0xFF, m];
+                s.extend_from_slice(&((d.len() + 2) as u16).to_be_bytes());
+                s.extend_from_slice(d);
+                s
+            };
+            for n in [1usize, 40, 400, 4000] {
+                v.push((format!("COM{n}"), seg(0xFE, &fill(n))));
+            }
+            v.push(("APP1-40".into(), seg(0xE1, &fill(40))));
+            v.push(("APP13-400".into(), seg(0xED, &fill(400))));
         }
-        _ => return None,
-    })
+        "png" => {
+            for n in [1usize, 40, 400, 4000] {
+                let mut d = b"Comment\0".to_vec();
+                d.extend(fill(n));
+                v.push((format!("tEXt{n}"), assets::png_chunk(b"tEXt", &d)));
+            }
+            v.push(("prVt40".into(), assets::png_chunk(b"prVt", &fill(40))));
+        }
+        "gif" => {
+            for n in [1usize, 40, 400] {
+                let mut b = vec![0x21, 0xFE];
+                for c in fill(n).chunks(255) {
+                    b.push(c.len() as u8);
+                    b.extend_from_slice(c);
+                }
+                b.push(0);
+                v.push((format!("comment{n}"), b));
+            }
+        }
+        "bmff" | "jxl" => {
+            for n in [4usize, 40, 400] {
+                v.push((format!("abcd{n}"), assets::bx(b"abcd", &fill(n))));
+            }
+            if family == "bmff" {
+                // a box kind the BMFF hash declares excluded by xpath
+                for n in [1usize, 40, 400, 4000] {
+                    v.push((format!("free{n}"), assets::bx(b"free", &fill(n))));
+                }
+            }
+        }
+        "riff" => {
+            for n in [4usize, 40] {
+                let mut c = b"evil".to_vec();
+                c.extend_from_slice(&(n as u32).to_le_bytes());
+                c.extend(fill(n));
+                v.push((format!("evil{n}"), c));
+            }
+        }
+        _ => {}
+    }
+    v
 }
 
 pub fn edits(seed: &Seed, thorough: bool) -> Vec<Edit> {
@@ -305,19 +351,13 @@ pub fn edits(seed: &Seed, thorough: bool) -> Vec<Edit> {
         if let Some((i, last)) = units.iter().enumerate().rev().find(|(_, u)| u.name != "trailing") {
             v.push(Edit::append(f, f[last.start..last.end].to_vec(), "append-unit", format!("append-copy-of unit={i}")));
         }
-        if let Some(x) = well_formed_extra_unit(seed.family) {
-            v.push(Edit::append(f, x.clone(), "append-new-unit", "append-new-unit".into()));
+        for (name, x) in extra_units(seed.family) {
+            let free = name.starts_with("free");
+            let (ka, ki) = if free { ("append-free-box", "insert-free-box") } else { ("append-new-unit", "insert-new-unit") };
+            v.push(Edit::append(f, x.clone(), ka, format!("append-new-unit {name}")));
             // ... and the same new unit inserted at every structural boundary
             for (i, u) in units.iter().enumerate() {
-                v.push(Edit::splice("insert-new-unit", u.start, u.start, x.clone(), format!("insert-new-unit before-unit={i}")));
-            }
-        }
-        if seed.family == "bmff" {
-            // a box kind the BMFF hash declares excluded by xpath, appended and inserted at every boundary
-            let free = assets::bx(b"free", b"evil");
-            v.push(Edit::append(f, free.clone(), "append-free-box", "append-free-box".into()));
-            for (i, u) in units.iter().enumerate() {
-                v.push(Edit::splice("insert-free-box", u.start, u.start, free.clone(), format!("insert-free-box before-unit={i}")));
+                v.push(Edit::splice(ki, u.start, u.start, x.clone(), format!("insert-new-unit {name} before-unit={i}")));
             }
         }
         for (i, u) in units.iter().enumerate() {
